@@ -13,17 +13,18 @@ CLAIMED = {
         "written values, and a Rust-string name comes back as the same string.  DIRECTORY level: finish() on a well-behaved "
         "sink returns  front ++ directory ++ end records  and the reader's open on exactly these bytes (backward end-record "
         "search, locator/ZIP64 decoding, directory walk) lists one entry per writer record, in order, offset 0, same comment.  "
-        "END TO END for a stored entry: for EVERY name, Stored options (any permissions/time), EVERY content <= 2^32-1 bytes, "
-        "every compressor and 32-bit checksum function:  start_file; write_all; finish  succeed and the reader opens the "
-        "result with one entry whose reader DENOTES the content, so every completed read under every schedule of buffer "
-        "sizes returns exactly the content (C09 lift), with the written name, method, sizes, CRC.  The reader's blind spot "
+        "END TO END for stored entries (C01_stored_roundtrip): for ANY number of entries with EVERY name, Stored options (any "
+        "permissions/time), EVERY content <= 2^32-1 bytes, every compressor and 32-bit checksum function:  (start_file; "
+        "write_all)*; finish  succeed and the reader opens the result, lists the entries in order, and entry i's reader "
+        "DENOTES content i, so every completed read under every schedule of buffer sizes returns exactly that content (C09 "
+        "lift), with the written name, method, sizes, CRC.  The reader's blind spot "
         "is an explicit hypothesis and a recorded known finding (D22: bytes in front of the end record that look like a "
         "ZIP64 locator), with a model witness.  Compressed and encrypted entries, k-entry programs, drop vs finish, and the "
         "tie of both models to the crate are carried by the correspondence: the writer model reproduces the crate's archive "
         "BYTE FOR BYTE on 437 random programs (all methods x levels, name/timestamp/permission/comment shapes, large_file, "
         "directories, symlinks, split writes, short-writing sinks), the reader model reads those bytes like the crate, and "
         "the oracle checks every re-read entry against what was written.",
-   note="Trusted: Coq kernel, extraction+driver, harness, codec libraries as enc oracle (dec(enc x)=x checked by CPython for deflate/bzip2 and by the crate's reader for zstd). PARTIAL: the end-to-end theorem is proved for one stored entry (its lemmas are stated over an arbitrary prefix of earlier entries; the k-entry induction is not written out); compressed/encrypted entries are outside the reader model's decoders. KNOWN FINDING D22 (known_findings.txt).",
+   note="Trusted: Coq kernel, extraction+driver, harness, codec libraries as enc oracle (dec(enc x)=x checked by CPython for deflate/bzip2 and by the crate's reader for zstd). PARTIAL: the end-to-end theorem covers stored, unencrypted, non-large entries written by start_file + write_all on a well-behaved sink with an empty comment; compressed/encrypted entries are outside the reader model's decoders; directories, symlinks, extra data, short-writing sinks are covered by correspondence only. KNOWN FINDING D22 (known_findings.txt).",
    technique="Coq proof (record codec round trip, directory round trip through open, end-to-end write-then-read for stored entries lifted to all read schedules) + byte-exact writer-model correspondence and re-read oracle",
    design="8 (C01), 13"),
  "C02": dict(
